@@ -371,7 +371,11 @@ fn map_indexes(
     indexes: &[usize],
     tree_depth: usize,
 ) -> Result<BTreeMap<usize, usize>, MerkleTreeError> {
-    let num_leaves = 2usize.pow(tree_depth as u32);
+    // the depth may come from an untrusted batch proof: a tree that deep cannot be indexed
+    if tree_depth >= usize::BITS as usize {
+        return Err(MerkleTreeError::InvalidProof);
+    }
+    let num_leaves = 1usize << tree_depth;
     let mut map = BTreeMap::new();
     for (i, index) in indexes.iter().cloned().enumerate() {
         map.insert(index, i);
